@@ -13,9 +13,10 @@ import (
 
 func c13d7(n string) byte { v := zz.U8(n); zz.Assume(v < 0x80); return v }
 
-// one live message: 0 channel (2 data), 1 channel (1 data), 2 MTC, 3 SPP, 4 song select, 5 tune, 6 sysex, 7 realtime
+// one live delivery: 0 channel (2 data), 1 channel (1 data), 2 MTC, 3 SPP, 4 song select, 5 tune, 6 sysex, 7 realtime,
+// 8 a delivery without bytes (time passes, nothing arrives)
 func c13msg(k string) (m []byte, isChannel bool) {
-	switch zz.Choice("kind"+k, 8) {
+	switch zz.Choice("kind"+k, 9) {
 	case 0:
 		st := zz.U8("st" + k)
 		zz.Assume(st >= 0x80 && st <= 0xEF && st&0xF0 != 0xC0 && st&0xF0 != 0xD0)
@@ -34,6 +35,8 @@ func c13msg(k string) (m []byte, isChannel bool) {
 		return []byte{0xF6}, false
 	case 6:
 		return []byte{0xF0, c13d7("a" + k), 0xF7}, false
+	case 8:
+		return []byte{}, false
 	default:
 		rt := []byte{0xF8, 0xFA, 0xFB, 0xFC, 0xFE, 0xFF}
 		return []byte{rt[zz.Choice("rt"+k, len(rt))]}, false
